@@ -20,8 +20,13 @@ def tlc_replay(run, name, module, cfg, family, profiles=('debug',), workers=None
         pass
 
 
-def grammar(run, fam, family='syntax', profiles=('debug',)):
-    tlc_replay(run, 'grammar-' + fam, 'MC_Grammar.tla', 'MC_Grammar_%s_%s.cfg' % (fam, run.tier), family, profiles=profiles, xss='256m')
+def grammar(run, fam, family='syntax', profiles=('debug',), parts=None):
+    """parts (family e2e): 'run' compares the run with the model's, 'lint' the lint report, None both"""
+    env = None
+    if parts:
+        env = dict(getattr(run, 'replay_env', None) or {})
+        env['VH_E2E_PARTS'] = parts
+    tlc_replay(run, 'grammar-' + fam, 'MC_Grammar.tla', 'MC_Grammar_%s_%s.cfg' % (fam, run.tier), family, profiles=profiles, xss='256m', env=env)
 
 
 def deep(run, family='e2e', profiles=('debug',)):
@@ -64,6 +69,11 @@ def C14(run):
                 'orders, truthiness, not, build-then-knock for k = 1..3 and compound vs expanded assignment for + - * /, and TLC evaluates the '
                 'same law formulas on the recorded table (TableTrace.tla).  The laws are the oracle, not the model\'s cells (those belong to '
                 'C03); non-trivial = distinct pairs')
+    # compound assignment as TEXT: `let x be op e` (operator as a word or a symbol) against `let x be x op e`, through the real front end
+    run.rule += ('; compound assignment as text: `let x be op e` and `let x be x op e` for + - * / (worded and symbolic spellings, list operands) '
+                 'rendered by Grammar.tla, parsed and run by the real front end and interpreter; the model (on which TLC checks that both '
+                 'forms run the same) is the reference for both')
+    grammar(run, 'claw', family='e2e', parts='run')
     out = run.path('laws.out')
     res = run_tlc('MC_Table.tla', 'MC_Table_C14_%s.cfg' % run.tier, out)
     run.add_tlc('laws-on-model', res)
@@ -316,7 +326,7 @@ def C04(run):
                 + INTERP_NOTE + TRACE_NOTE)
     interp(run, 'CF')
     # which statements belong to which branch / loop is decided by the parser: block-structure programs as TEXT through the real front end
-    grammar(run, 'cf', family='e2e')
+    grammar(run, 'cf', family='e2e', parts='run')
     # "an error stops execution at that statement": also an output or input fault (family IO, faults of every kind at every position)
     interp(run, 'IO')
     interptrace(run)
@@ -451,7 +461,7 @@ def C15(run):
                  'name kind and per-mention case) must run exactly like the model (events incl. physical statement lines, lint report)')
     interp(run, 'RN', family='rename')
     # text level: keywords and every name mention in pseudo-randomly varied letter case, names of all three kinds
-    grammar(run, 'e2e', family='e2e')
+    grammar(run, 'e2e', family='e2e', parts='run')
 
 
 _C06_table, _C07_table = C06, C07
@@ -491,6 +501,11 @@ def C17(run):
                 '(atoms of every kind, unary, binary with single and list operands, depth 2-3); the real folders must agree with the model '
                 '(value or refusal class) and the real interpreter must compute every reported value; non-trivial = a value is reported')
     lintjob(run, 'fold', 'fold')
+    # where the folder's value reaches the user: every numeric value the boring-assignment lint names must be what the interpreter
+    # prints for that right-hand side (checked on the implementation alone, also for values outside the model's exact numbers)
+    run.rule += ('; every numeric value named by a lint diagnostic of the lint family is compared with what the interpreter prints for that '
+                 'right-hand side')
+    tlc_replay(run, 'lint-values', 'MC_Lint.tla', 'MC_Lint_lint_%s.cfg' % run.tier, 'lint', env={'VH_LINT_PARTS': 'values'})
 
 
 def C18(run):
@@ -501,7 +516,7 @@ def C18(run):
                 'with constant assignments at every depth rendered by Grammar.tla under 10 tapes x 3 namings (one tape puts a comment '
                 'spanning three line breaks between all tokens): the report of the real front end + linter must name the physical lines')
     lintjob(run, 'lint', 'lint')
-    grammar(run, 'lint', family='e2e')
+    grammar(run, 'lint', family='e2e', parts='lint')
 
 
 def C19(run):
@@ -509,9 +524,9 @@ def C19(run):
                 '(thorough: triples) of 19 mention-order statements must equal the model; TLC checks sortedness, tie order and the repeated-'
                 'identifier definition on the model; the program must be unchanged and the linter must not panic')
     lintjob(run, 'lint', 'lint')
-    grammar(run, 'lint', family='e2e')          # reports on rendered programs: physical line numbers behind multi-line comments
+    grammar(run, 'lint', family='e2e', parts='lint')          # reports on rendered programs: physical line numbers behind multi-line comments
     if run.tier == 'thorough':
-        grammar(run, 'e2e', family='e2e')       # all interpreter families as text, real mention spellings
+        grammar(run, 'e2e', family='e2e', parts='lint')       # all interpreter families as text, real mention spellings
 
 
 def C02(run):
@@ -532,7 +547,7 @@ def C02(run):
     # an error line; the real parser must assign the same (accepted texts: exactly the tree).
     parser_soup(run, ['lines3'] if run.tier == 'quick' else ['lines4', 'core4'])
     if run.tier == 'thorough':
-        grammar(run, 'e2e', family='e2e')
+        grammar(run, 'e2e', family='e2e', parts='run')
         tlc_replay(run, 'parser-simlines', 'MC_Parser.tla', 'MC_Parser_simlines.cfg', 'verdict', simulate='num=4000', workers=8, xss='256m')
 
 
